@@ -116,6 +116,8 @@ PATTERNS = [
         and c["layout"] in ("lazy", "lazyhet") and a.get("status") == "ok" and _only(f, "kind")),
     ("D179-get_at-indexes-the-unwrapped-value", lambda c, a, b, f: c["name"] == "get_at" and c["mode"] == "call" and not c.get("embed")
         and a.get("status") == "ok" and _only(f, "content") and isinstance(_res(b), list) and _res(b)[0] == "NT"),
+    ("D180-shadow-class-rejects-batch_size-assignment", lambda c, a, b, f: c["cls"] == "Shadow" and _tc_exc(a) == "AttributeError"
+        and "Cannot set the attribute" in _msg(a) and ("'batch_size'" in _msg(a) or "'names'" in _msg(a)) and b.get("status") == "ok"),
     ("D175-indices-reductions-drop-nested-class", lambda c, a, b, f: c["name"] in ("max", "min", "cummax", "cummin") and c.get("embed") == "outer"
         and a.get("status") == "ok" and _only(f, "wrap")),
 ]
